@@ -284,6 +284,18 @@ func installOps(in *Interp, p *Pkg) {
 		return v, nil
 	})
 	def("handler-bind", []string{"bindings", "&rest", "forms"}, opHandlerBind)
+	def("quasiquote", []string{"expr"}, func(in *Interp, env *Env, a []*Val, at *Val) (*Val, *Err) {
+		v, err := in.quasi(env, a[0], at)
+		if err != nil {
+			return nil, err
+		}
+		if v.K == KSym || v.K == KList {
+			c := *v
+			c.Quoted = true
+			return &c, nil
+		}
+		return v, nil
+	})
 	// definitions
 	def("defun", []string{"name", "formals", "&rest", "expr"}, func(in *Interp, env *Env, a []*Val, at *Val) (*Val, *Err) {
 		return in.define(env, a, at, FClosure)
@@ -383,7 +395,7 @@ func opHandlerBind(in *Interp, env *Env, a []*Val, at *Val) (*Val, *Err) {
 		}
 		args := append([]*Val{QSym(err.Cond)}, err.Data...)
 		in.Handling = append(in.Handling, err)
-		r, e3 := in.Apply(fn, args, at)
+		r, e3 := in.Apply(fn, args, &Val{K: KList}) // no call expression: the handler frame has no call-site position
 		in.Handling = in.Handling[:len(in.Handling)-1]
 		return r, e3
 	}
@@ -391,3 +403,41 @@ func opHandlerBind(in *Interp, env *Env, a []*Val, at *Val) (*Val, *Err) {
 }
 
 var _ = fmt.Sprint
+
+// quasi copies a template literally (positions kept) except that
+// (unquote e) inserts the value of e and (unquote-splicing e) splices the
+// elements of a list.
+func (in *Interp) quasi(env *Env, t *Val, at *Val) (*Val, *Err) {
+	if t.K != KList || len(t.Cells) == 0 || t.Quoted {
+		return t, nil
+	}
+	if h := t.Cells[0]; h.K == KSym && !h.Quoted && h.S == "unquote" {
+		if len(t.Cells) != 2 {
+			return nil, in.errf(at, "error", "unquote takes one argument")
+		}
+		return in.Eval(env, t.Cells[1])
+	}
+	if h := t.Cells[0]; h.K == KSym && !h.Quoted && h.S == "unquote-splicing" {
+		return nil, in.errf(at, "error", "unquote-splicing outside a list")
+	}
+	out := &Val{K: KList, Pos: t.Pos}
+	for _, c := range t.Cells {
+		if c.K == KList && !c.Quoted && len(c.Cells) == 2 && c.Cells[0].K == KSym && c.Cells[0].S == "unquote-splicing" {
+			v, err := in.Eval(env, c.Cells[1])
+			if err != nil {
+				return nil, err
+			}
+			if v.K != KList {
+				return nil, in.errf(at, "error", "unquote-splicing of a non-list")
+			}
+			out.Cells = append(out.Cells, v.Cells...)
+			continue
+		}
+		x, err := in.quasi(env, c, at)
+		if err != nil {
+			return nil, err
+		}
+		out.Cells = append(out.Cells, x)
+	}
+	return out, nil
+}
